@@ -1,6 +1,7 @@
 package rules
 
 import (
+	"os"
 	"go/token"
 	"go/types"
 	"strings"
@@ -71,7 +72,7 @@ func (c *Ctx) maybeNilIface(dt *core.DynTypes, x ssa.Value, at *ssa.BasicBlock) 
 		}
 	}
 	ts := dt.Of(x, at)
-	if !ts.Top && !ts.MayNil && len(ts.Types) > 0 {
+	if !ts.MayNil && (!ts.Top || ts.TopNonNil) && (len(ts.Types) > 0 || ts.Top) {
 		return false, "provenance of the argument excludes nil: " + ts.String()
 	}
 	return true, ""
@@ -287,6 +288,9 @@ func (c *Ctx) ruleReflect(rule string, fns map[*ssa.Function]bool) {
 				if m == "" {
 					continue
 				}
+				if (m == "Set" || m == "SetMapIndex") && len(call.Call.Args) >= 2 {
+					c.reflectSetArgs(rule, dt, fn, b, call, m, cnt)
+				}
 				if m == "MapIndex" && len(call.Call.Args) == 2 {
 					cnt["mapindex"]++
 					c.reflectMapIndex(rule, fn, call, cnt["mapindex"])
@@ -443,5 +447,44 @@ func (c *Ctx) reflectMapIndex(rule string, fn *ssa.Function, call *ssa.Call, n i
 	// results stored and used through locals are not followed
 	if uses == 0 {
 		c.R.Info(rule, key(rule, c.M.Key(fn), sprintf("MapIndex #%d on %s: uses", n, c.stable(fn, mapPath))), pos, "MapIndex result not used directly by a reflect method", "not decided")
+	}
+}
+
+// ---- (d) reflect.Value.Set / SetMapIndex with a zero Value argument ---------------------------------------------------
+//
+// dst.Set(reflect.ValueOf(x)) panics ("call of reflect.Value.Set on zero Value") when x is the nil interface, and
+// m.SetMapIndex(reflect.ValueOf(k), v) panics for a nil k. Every argument of the form reflect.ValueOf(x) is an
+// obligation: x must not be nil there (not of interface type, a dominating non-nil test, provenance excluding nil -
+// e.g. the result of an Unserialize none of whose implementers returns (nil, nil) - or a recover scope).
+func (c *Ctx) reflectSetArgs(rule string, dt *core.DynTypes, fn *ssa.Function, b *ssa.BasicBlock, call *ssa.Call, m string, cnt map[string]int) {
+	if os.Getenv("VERIF_DBG") == "setargs" {
+		for _, n := range c.serializableTypes() {
+			if f := c.methodFn(n, "Unserialize"); f != nil && len(f.Blocks) > 0 {
+				println("UNSER", c.M.Key(f), dt.ResultOf(f, 0, true).String())
+			}
+		}
+	}
+	last := len(call.Call.Args)
+	if m == "SetMapIndex" {
+		last = 2 // a zero Value as the element deletes the key; only the key must be valid
+	}
+	for i := 1; i < last; i++ {
+		x := valueOfArg(call.Call.Args[i])
+		if x == nil {
+			continue
+		}
+		cnt["set"]++
+		k := key(rule, c.M.Key(fn), sprintf("%s(reflect.ValueOf(%s)) #%d", m, c.stable(fn, c.reflPath(x, 0)), cnt["set"]))
+		what := "reflect.Value." + m + " with reflect.ValueOf(x) as argument"
+		if may, why := c.maybeNilIface(dt, x, b); !may {
+			c.R.Ok(rule, k, c.M.InstrPos(call), what, why)
+			continue
+		}
+		if isRecoverScope(fn) {
+			c.R.Ok(rule, k, c.M.InstrPos(call), what, "the function recovers: the panic becomes the recovered error")
+			continue
+		}
+		c.R.Bad(rule, k, c.M.InstrPos(call), "reflect.Value."+m+" may receive the zero Value: x in reflect.ValueOf(x) may be nil",
+			"reflect.ValueOf(nil) is the zero Value; "+m+" panics on it instead of the nil being rejected (or stored); provenance of x: "+dt.Of(x, b).String())
 	}
 }
